@@ -39,6 +39,8 @@ MUTANTS = [
     ("C04", "detect", "specs/openapi/schemas.py", "definition, operation.definition.scope, content_types[0] if content_types else None", "definition, operation.definition.scope, None", "schema looked up without the response's Content-Type"),
     ("C04", "detect", "specs/openapi/schemas.py", "option = _find_media_type_definition(definition.get(\"content\", {}), content_type)", "option = _find_media_type_definition(definition.get(\"content\", {}), None)", "3.x schema lookup drops the content type"),
     ("C04", "quiet", "specs/openapi/schemas.py", "    return next(iter(content.values()), None)", "    for definition in content.values():\n        return definition\n    return None", "first documented media type written as a loop"),
+    ("C04", "detect", CHK, "        if header.lower() not in response.headers and definition.get(case.operation.schema.header_required_field, False)", "        if header not in response.headers and definition.get(case.operation.schema.header_required_field, False)", "documented header names compared case-sensitively"),
+    ("C04", "detect", CHK, "    if missing_headers:\n        formatted_headers", "    if len(missing_headers) > 1:\n        formatted_headers", "a single missing required header is not reported"),
     # ---- C05
     ("C05", "detect", UNIT, "    except (FailureGroup, Failure):\n        status = Status.FAILURE", "    except (FailureGroup, Failure):\n        status = Status.SUCCESS", "failure swallowed in run_test"),
     ("C05", "detect", UNIT, "        and ctx.config.execution.continue_on_failure\n", "        and not ctx.config.execution.continue_on_failure\n", "continue_on_failure inverted"),
